@@ -77,6 +77,7 @@ pub struct PortReads {
     pub total: usize,
     pub reads: Vec<usize>,
     pub ended: bool,
+    pub last_ns: u64,
 }
 
 struct ReadTrack {
@@ -95,6 +96,7 @@ thread_local! {
 }
 
 fn fp_hook(id: u32, a: usize, b: usize) {
+    let _not_library = crate::alloc::HarnessSection::enter();
     let i = (id as usize).min(NFP - 1);
     FP_HITS[i].fetch_add(1, Ordering::Relaxed);
     use tiny_http::verif as v;
@@ -104,6 +106,7 @@ fn fp_hook(id: u32, a: usize, b: usize) {
                 let rt = reads();
                 let mut m = rt.m.lock().unwrap();
                 let e = m.entry(a as u16).or_default();
+                e.last_ns = now_ns();
                 if b == usize::MAX || b == 0 {
                     e.ended = true;
                 } else {
@@ -222,6 +225,31 @@ pub fn reads_of(port: u16) -> PortReads {
     reads().m.lock().unwrap().get(&port).cloned().unwrap_or_default()
 }
 
+/// Wait until the server is done with the connection of client port `port`: its read returned
+/// EOF/error, or it has not read from it for `idle` (at most `timeout`).
+pub fn wait_connection_quiet(port: u16, idle: Duration, timeout: Duration) -> bool {
+    let t0 = Instant::now();
+    loop {
+        let (ended, last) = {
+            let m = reads().m.lock().unwrap();
+            m.get(&port).map(|e| (e.ended, e.last_ns)).unwrap_or((false, 0))
+        };
+        if ended {
+            return true;
+        }
+        if last > 0 && now_ns().saturating_sub(last) > idle.as_nanos() as u64 {
+            return true;
+        }
+        if last == 0 && t0.elapsed() > idle * 4 {
+            return true;
+        }
+        if t0.elapsed() > timeout {
+            return false;
+        }
+        std::thread::sleep(Duration::from_micros(200));
+    }
+}
+
 /// Wait until the server has consumed at least `n` bytes from the connection with client
 /// port `port` (or the connection ended), at most `timeout`. Returns true if reached.
 pub fn wait_consumed(port: u16, n: usize, timeout: Duration) -> bool {
@@ -254,6 +282,38 @@ pub trait CaseApp: Send + Sync {
 }
 
 static UNIX_SEQ: AtomicU64 = AtomicU64::new(0);
+static SERVERS_CREATED: AtomicU64 = AtomicU64::new(0);
+
+/// Connection tasks accepted but not yet finished by a pool worker, derived from failpoint
+/// hits: every accepted connection hits FP_ACCEPTED, every worker hits FP_POOL_WORKER_LOOP once
+/// when it starts idle (4 per server) and once after each finished task. Only meaningful while
+/// every server of this process was created through `Env::new` after `install_fp_hook`.
+pub fn tasks_in_flight() -> i64 {
+    use tiny_http::verif as v;
+    let accepted = FP_HITS[v::FP_ACCEPTED as usize].load(Ordering::SeqCst) as i64;
+    let loops = FP_HITS[v::FP_POOL_WORKER_LOOP as usize].load(Ordering::SeqCst) as i64;
+    let servers = SERVERS_CREATED.load(Ordering::SeqCst) as i64;
+    accepted - (loops - 4 * servers)
+}
+
+pub fn accepted_count() -> u64 {
+    FP_HITS[tiny_http::verif::FP_ACCEPTED as usize].load(Ordering::SeqCst)
+}
+
+/// Wait until at least `accepted_target` connections were accepted and no connection task is
+/// running any more.
+pub fn wait_tasks_done(accepted_target: u64, timeout: Duration) -> bool {
+    let t0 = Instant::now();
+    loop {
+        if accepted_count() >= accepted_target && tasks_in_flight() <= 0 {
+            return true;
+        }
+        if t0.elapsed() > timeout {
+            return false;
+        }
+        std::thread::sleep(Duration::from_micros(100));
+    }
+}
 pub static STRAY: AtomicU64 = AtomicU64::new(0);
 pub static CTL_SERVED: AtomicU64 = AtomicU64::new(0);
 
@@ -291,6 +351,7 @@ impl Env {
             let a = s.server_addr().to_ip().unwrap();
             (s, Addr::Tcp(a))
         };
+        SERVERS_CREATED.fetch_add(1, Ordering::SeqCst);
         let server = Arc::new(server);
         let cur: Arc<Mutex<Option<Arc<dyn CaseApp>>>> = Arc::new(Mutex::new(None));
         let mut dispatchers = Vec::new();
@@ -303,10 +364,12 @@ impl Env {
                     Ok(rq) => {
                         let port = rq.remote_addr().map(|a| a.port()).unwrap_or(0);
                         let app = cur.lock().unwrap().clone();
-                        match app {
+                        // a panic in a handler (that is a finding for the panic hook) must not
+                        // take the dispatcher with it
+                        let _ = std::panic::catch_unwind(std::panic::AssertUnwindSafe(|| match app {
                             Some(app) if app.accepts(port, &rq) => app.on_request(rq),
                             _ => default_handler(rq),
-                        }
+                        }));
                     }
                     Err(_) => break,
                 }
